@@ -433,6 +433,22 @@ func TestVerif_C02(t *testing.T) {
 			}
 		}
 	}
+	// (c') every byte value at positions spread over a valid serialisation (keys, numbers, sums, name, braces)
+	for k := 0; k < verifh.Scale(2, 6); k++ {
+		s := sers[r.Intn(len(sers))]
+		name := bytes.Index(s, []byte(`"Name":"`)) + 8
+		for _, i := range []int{0, 1, 9, 24, 25, name - 10, name, name + 31, name + 63, name + 64, len(s) - 3, len(s) - 2, len(s) - 1} {
+			if i < 0 || i >= len(s) {
+				continue
+			}
+			for b := 0; b < 256; b++ {
+				m := append([]byte(nil), s...)
+				m[i] = byte(b)
+				run(verifh.Case{Ops: [][]string{{"one", "deser", verifh.Hex(m)}}})
+				tr.Count("deser_byte_subst", 1)
+			}
+		}
+	}
 	// (c) deserialisation: valid serialisations and their mutations
 	for i := 0; i < verifh.Scale(1500, 60000); i++ {
 		s := sers[r.Intn(len(sers))]
